@@ -6,7 +6,7 @@ From DA Require Import Base.PyRT Base.Val Model.Sem Proofs.SemBasicP Model.Colum
 Local Open Scope list_scope.
 
 Lemma stage1_correct fl (e : env) d p usg ids q ids' :
-  builder_ok p = true -> stage1 (d_allow_extend_merges d) p = true -> wf_env e p ->
+  builder_ok p = true -> stage1 (d_allow_extend_merges d) (join_covered d fl) p = true -> wf_env e p ->
   NoDup (req p usg) -> incl (req p usg) (column_names p) ->
   to_near d p usg ids = Ok (q, ids') ->
   exists T, sem_gen fl p e = Some T /\
@@ -23,7 +23,7 @@ Lemma sel_width_id K R : cols R = K -> NoDup K -> width_ok R -> sel K R = R.
 Proof. intros E N W. subst K. apply select_cols_id; assumption. Qed.
 
 Lemma stage1_toplevel fl (e : env) d p ids q ids' :
-  builder_ok p = true -> stage1 (d_allow_extend_merges d) p = true -> wf_env e p ->
+  builder_ok p = true -> stage1 (d_allow_extend_merges d) (join_covered d fl) p = true -> wf_env e p ->
   to_near d p None ids = Ok (q, ids') ->
   exists T R, sem_gen fl p e = Some T /\ nsem fl q e = Some R /\
     sel (column_names p) R = T /\ incl (column_names p) (cols R) /\ NoDup (cols R) /\
@@ -32,7 +32,7 @@ Proof.
   intros BO St WF H. unfold to_near in H.
   pose proof (builder_ok_nodup p BO) as Np.
   destruct (gen_stage1 fl e _ d p None ids q ids' BO St WF Np (incl_refl _) H) as [T [ET [D _]]]. cbn [req] in D.
-  pose proof (stage1_cols_nonempty _ p BO St) as NE.
+  pose proof (stage1_cols_nonempty _ _ p BO St) as NE.
   assert (tkeys q <> []) as NK.
   { destruct (column_names p) as [|c0 t] eqn:E; [congruence|]. intros X. pose proof (dv_incl _ _ _ _ _ D c0 (or_introl eq_refl)) as I. rewrite X in I. destruct I. }
   destruct (dv_sel _ _ _ _ _ D (tkeys q) NK (dv_nodup _ _ _ _ _ D) (incl_refl _)) as [R [E1 [_ [_ E4]]]].
@@ -56,7 +56,7 @@ Proof.
 Qed.
 
 Lemma stage1_row_count fl (e : env) d p usg ids q ids' :
-  builder_ok p = true -> stage1 (d_allow_extend_merges d) p = true -> wf_env e p ->
+  builder_ok p = true -> stage1 (d_allow_extend_merges d) (join_covered d fl) p = true -> wf_env e p ->
   NoDup (req p usg) -> incl (req p usg) (column_names p) ->
   to_near d p usg ids = Ok (q, ids') ->
   exists T R, sem_gen fl p e = Some T /\ qsem fl e q (Some []) = Some R /\ List.length (rows R) = List.length (rows T).
